@@ -1,22 +1,31 @@
 import Cfdm.Lemmas.ConstructsStep
+import Cfdm.Lemmas.ConstructsSeq
+import Cfdm.Lemmas.ConstructsView
+import Cfdm.Lemmas.ConstructsInPlace
 /-
 C02 — the construct container keeps referential integrity over any history.
-Property theorems only.  Model: `Cfdm/Model/Constructs.lean` (`step` = the container with the
-proposed patches fixes/C02-*.patch, `stepOld` = the container as coded);
+Property theorems only.  Model: `Cfdm/Model/Constructs.lean` (`step` = the container as coded at
+/repo HEAD, where the five repairs fixes/C02-*.patch are applied as commits 0a6b21e, 05dfd6b,
+fba0f94, 7ccd512, 7a00732; `stepOld` = the container before those commits) and
+`Cfdm/Model/ConstructsSeq.lean` (the bodies of the mutating methods as sequences of reads, guards and
+writes in the order of the code);
 specification: `Cfdm/Spec/Constructs.lean` (`Inv`).
 
   FULL STATEMENT (what the property demands):
     theorem C02_inv_step (s : St) (op : Op) : Inv s → Inv (step s op).1
     theorem C02_inv_reachable (ops : List Op) : Inv (run init ops)
-  It is FALSE for cfdm, also after the proposed patches: `C02_axis_resize_breaks_inv`,
-  `C02_dangling_cell_method_breaks_inv`, `C02_dangling_reference_breaks_inv` and
-  `C02_replace_unchecked_breaks_inv` below are accepted calls that break `Inv` (open findings without
-  a patch).  What is proved is the statement for every other argument choice (`Admissible`): every
+  It is FALSE for cfdm at HEAD: `C02_axis_resize_breaks_inv`,
+  `C02_dangling_cell_method_breaks_inv`, `C02_dangling_reference_breaks_inv`,
+  `C02_replace_unchecked_breaks_inv` and `C02_direct_mutation_breaks_inv` below are accepted calls that
+  break `Inv` (open findings without a patch), `C02_inplace_insert_dimension_topology_breaks_inv` a rejected
+  one (open finding, patch proposed).  What is proved is the statement for every other argument choice (`Admissible`): every
   operation of the model, with any arguments, except that for `set_construct` exactly those three classes
   are excluded (`SetOK`: domain axis resized while spanned; cell method / coordinate reference naming a
   missing construct) together with constructs that are inconsistent in themselves (which cfdm's own
-  `set_bounds` refuses to build), and for `constructs.replace` the caller must supply what the documented
-  absence of checks leaves to him (`ReplaceOK`).
+  `set_bounds` refuses to build), for `constructs.replace` the caller must supply what the documented
+  absence of checks leaves to him (`ReplaceOK`), a mutator called directly on a contained construct
+  must keep it fitting its recorded axes (`MutOK`), and `insert_dimension(constructs=True, inplace=True)`
+  needs a field without topology data (`NoTopoData`).
 -/
 namespace Cfdm.Props.C02
 open Cfdm.Constructs
@@ -222,10 +231,159 @@ example : step exField (.setd [4] none) = (exField, .rejected) ∧
 example : step exField (.setc false .aux { data := some [4] } none (some [⟨"domainaxis", 0⟩])) = (exField, .rejected) := by
   decide
 
-/-! ### the code as it is: each proposed patch repairs an accepted call that breaks the invariant -/
+/-! ### the order of guards and writes: a rejected call leaves the state literally unchanged -/
 
-/-- `new_identifier` (unpatched) returns `domainaxis1` although an auxiliary coordinate was stored under
-that identifier: the key ends up under two types.  Patched: `domainaxis2`. -/
+/-- **The sequenced bodies compute the steps of the model**: running the reads, guards and writes of
+`set_construct`, `del_construct`, `set_data`, `del_data`, `set_data_axes` (field and per construct),
+`del_data_axes` (field and per construct) and `constructs.replace` in the order of the code — stopping,
+with the state reached so far, at the first guard that fails — gives exactly `step`.  So every theorem
+about `step` (and the correspondence, which runs `step`) is about the code in its order. -/
+theorem C02_seq_refines (op : Op) (p : Prog) (h : progOf op = some p) (s : St) : p.exec s = step s op :=
+  progOf_exec h s
+
+example : progOf (.setd [4] none) = some (pSetData [4] none) := rfl
+example : (pSetData [4] none).exec exField = (exField, .rejected) := by decide
+
+/-- **Guards before writes ⇒ atomic**: ANY program in which every guard precedes the first write leaves
+the state it started from, literally, when it is rejected. -/
+theorem C02_guards_first_atomic (p : Prog) (h : p.GuardsFirst) (s s' : St) (hr : p.exec s = (s', .rejected)) :
+    s' = s :=
+  guardsFirst_atomic h s s' hr
+
+/-- every sequenced body except `del_construct` has all its guards before its first write
+(`_del_construct` cleans the coordinate references before `_pop` looks the identifier up; that late
+guard repeats the look-up that the public `del_construct` made first, see `C02_rejected_unchanged`) -/
+theorem C02_seq_guards_first (op : Op) (p : Prog) (h : progOf op = some p) (hd : ∀ view key, op ≠ .delc view key) :
+    p.GuardsFirst :=
+  progOf_gf h hd
+
+example : (pSetData [3] (some [⟨"domainaxis", 0⟩])).GuardsFirst := pSetData_gf _ _
+
+/-- the order matters: the body of `set_data` with its two statements exchanged (data stored first, axes
+checked afterwards) is rejected on the same input but leaves the new data behind — data of shape (4,) on
+an axis of size 3 -/
+theorem C02_order_matters :
+    let p := pSetDataStoreFirst [4] [⟨"domainaxis", 0⟩]
+    (p.exec exField).2 = .rejected ∧ (p.exec exField).1 ≠ exField ∧ ¬ Inv (p.exec exField).1 ∧
+      (pSetData [4] (some [⟨"domainaxis", 0⟩])).exec exField = (exField, .rejected) := by decide
+
+/-- **Every rejected call leaves the state literally unchanged** — `set_construct` (bad axes, wrong shape,
+identifier in use, hidden type), `del_construct` (axis in use, unknown / hidden identifier), `set_data` in
+place or not (shape fitting neither the given nor the existing axes, unknown axes, `axes=None` on a field
+with data axes), `set_data_axes`, `del_data`, `del_data_axes`, `constructs.replace`, a mutator of a contained
+construct, `copy`, subspace, `convert`, and `squeeze` / `transpose` / `insert_dimension` with
+`inplace=False` — in every state, invariant or not.  (The in-place deriving calls are the exception, see
+`C02_inplace_rejected_unchanged`, `C02_inplace_insert_dimension_leaves_axis`, `C02_inplace_loops_any_order`.) -/
+theorem C02_rejected_unchanged (s s' : St) (op : Op) (hip : op.inPlaceDeriving = false)
+    (h : step s op = (s', .rejected)) : s' = s :=
+  step_rejected_unchanged s s' op hip h
+
+example : step exField (.setdn [3, 1] none) = (exField, .rejected) := by decide
+example : step exField (.setd [1, 3] (some [⟨"domainaxis", 0⟩])) = (exField, .rejected) := by decide
+example : step exField (.delc false ⟨"domainaxis", 0⟩) = (exField, .rejected) := by decide
+example : (step exField (.setdn [3] none)).2.isOk = true := by decide
+
+/-- the hypothesis cannot be dropped: a rejected `insert_dimension(None, position=5, inplace=True)` has
+already created its new domain axis (`f.set_construct(DomainAxis(1))` is the first statement); the
+invariant still holds -/
+theorem C02_inplace_insert_dimension_leaves_axis :
+    let op := Op.insdim none 5 false true
+    (step exField op).2 = .rejected ∧ (step exField op).1 ≠ exField ∧ Inv (step exField op).1 := by decide
+
+/-- **In a state that satisfies the invariant a rejected in-place `squeeze`, `transpose` (without
+constructs) or `insert_dimension` of an existing axis leaves the state unchanged too**: these bodies write
+the new data before they re-set the data axes, but there the late `set_data_axes` cannot be the statement
+that fails. -/
+theorem C02_inplace_rejected_unchanged (s s' : St) (h : Inv s) (op : Op) (hop : op.inPlaceNoCreate = true)
+    (hr : step s op = (s', .rejected)) : s' = s :=
+  inplace_rejected_unchanged ((inv_iff_core s).mp h) op hop hr
+
+example : step exField (.squeeze (some [0]) true) = (exField, .rejected) := by decide
+
+/-- the invariant cannot be dropped from `C02_inplace_rejected_unchanged`: with data axes that name a
+missing axis the in-place `squeeze` stores the squeezed data and is then rejected -/
+theorem C02_inplace_needs_inv :
+    let s : St := { cons := [((.axis, ⟨"domainaxis", 0⟩), { size := some 1 })], ctype := [(⟨"domainaxis", 0⟩, .axis)],
+                    data := some [1, 3], dataAxes := some [⟨"domainaxis", 0⟩, ⟨"domainaxis", 9⟩],
+                    fda := some [⟨"domainaxis", 0⟩, ⟨"domainaxis", 9⟩] }
+    ¬ Inv s ∧ (step s (.squeeze none true)).2 = .rejected ∧ (step s (.squeeze none true)).1 ≠ s := by decide
+
+/-- **The in-place loops over the metadata constructs keep the invariant whatever the order** (and
+multiplicity) in which the constructs are visited - Python walks hash containers, the model a list -
+and wherever they stop: a failing step of `transpose(constructs=True, inplace=True)` leaves its construct
+untouched, the constructs before it transposed; the same for `insert_dimension(constructs=True,
+inplace=True)` provided no domain topology / cell connectivity construct has data. -/
+theorem C02_inplace_loops_any_order (s : St) (h : Inv s) (order : List (CType × Key)) :
+    Inv (foldIP transOne transDamage s order) ∧
+    ∀ a, axSize s a = some (some 1) → NoTopoData s → ∀ position da0,
+      Inv (foldIP (insOne true a position da0) (insDamage true a position da0) s order) :=
+  ⟨(inv_iff_core _).mpr (transposeLoop_anyOrder ((inv_iff_core s).mp h) order),
+   fun a ha hn position da0 =>
+     (inv_iff_core _).mpr (insertLoop_anyOrder ⟨(inv_iff_core s).mp h, ha, hn⟩ position da0 order).core⟩
+
+-- an in-place call with constructs=True on a field without topology data is admissible and keeps the invariant
+example : Admissible exField (.insdim none 0 true true) := fun _ => by decide
+example : Inv (step exField (.insdim none 0 true true)).1 := by decide
+
+/-- a field on a mesh: three cells, a domain topology (cells x nodes) and data on the cell axis -/
+def exMesh : St :=
+  { cons := [((.axis, ⟨"domainaxis", 0⟩), { size := some 3 }),
+             ((.top, ⟨"domaintopology", 0⟩), { data := some [3, 4] })],
+    ctype := [(⟨"domainaxis", 0⟩, .axis), (⟨"domaintopology", 0⟩, .top)],
+    caxes := [(⟨"domaintopology", 0⟩, [⟨"domainaxis", 0⟩])],
+    data := some [3], dataAxes := some [⟨"domainaxis", 0⟩], fda := some [⟨"domainaxis", 0⟩] }
+
+/-- `NoTopoData` cannot be dropped (open finding, patch proposed): `insert_dimension(None, 0, constructs=True,
+inplace=True)` on a field with a domain topology reshapes the topology ((1, 3, 4)), its new axes are then
+refused - its shape is the first dimension alone - and the rejected call leaves it reshaped on its one old
+axis: shape (1,) on an axis of size 3.  With `inplace=False` the same call is merely rejected. -/
+theorem C02_inplace_insert_dimension_topology_breaks_inv :
+    let op := Op.insdim none 0 true true
+    Inv exMesh ∧ (step exMesh op).2 = .rejected ∧ ¬ Inv (step exMesh op).1 ∧ ¬ Admissible exMesh op ∧
+      step exMesh (.insdim none 0 true false) = (exMesh, .rejected) := by
+  refine ⟨by decide, by decide, by decide, ?_, by decide⟩
+  intro h
+  have := h rfl (.top, ⟨"domaintopology", 0⟩) { data := some [3, 4] } (by decide) (Or.inl rfl)
+  revert this; decide
+
+/-! ### live views -/
+
+/-- **A call through a live view is the call through the field** (`f.domain`,
+`Domain.fromconstructs(f.constructs)`, `Domain(source=f, copy=False)`, a view of a view: all share the
+field's dictionaries) whenever it does not address a construct type / identifier that the view hides:
+same outcome, same resulting state — in particular every guard of `del_construct` (axis spanned by a
+field ancillary, named by a cell method, spanned by the field's data) fires exactly as through the field. -/
+theorem C02_view_eq_field (s : St) (h : Inv s) (op : Op) (hv : op.hiddenTarget s = false) :
+    step s op = step s op.viaField :=
+  view_eq_field ((inv_iff_core s).mp h) op hv
+
+example : (Op.delc true ⟨"domainaxis", 0⟩).hiddenTarget exField = false := by decide
+example : (Op.delc true ⟨"domainaxis", 0⟩).viaField = .delc false ⟨"domainaxis", 0⟩ := rfl
+
+/-- **A call through a view that addresses something hidden** (a field ancillary or cell method to be set;
+the identifier of one to be deleted or re-axed) **is refused and changes nothing**. -/
+theorem C02_view_hidden_refused (s : St) (op : Op) (hv : op.hiddenTarget s = true) : step s op = (s, .rejected) :=
+  view_hidden_refused s op hv
+
+example : (Op.delc true ⟨"cellmethod", 0⟩).hiddenTarget exField = true := by decide
+
+/-- **An identifier in use by a construct of another type is refused on every route**, also through a view
+that hides that construct (the guard of `_set_construct` reads the underlying `_construct_type`
+dictionary): nothing changes, no key ends up under two types. -/
+theorem C02_key_in_use_refused (s : St) (view : Bool) (t t' : CType) (c : Con) (k : Key) (axes : Option (List Key))
+    (hk : s.ctype.get k = some t') (hne : t' ≠ t) :
+    step s (.setc view t c (some k) axes) = (s, .rejected) :=
+  setConstruct_key_in_use s view t t' c k axes hk hne
+
+-- an auxiliary coordinate under the identifier of the cell method, through the domain view
+example : exField.ctype.get ⟨"cellmethod", 0⟩ = some .cm := by decide
+example : step exField (.setc true .aux { data := some [3] } (some ⟨"cellmethod", 0⟩) (some [⟨"domainaxis", 0⟩]))
+    = (exField, .rejected) := by decide
+
+/-! ### the code before the five repairs (`stepOld`): each repaired an accepted call that broke the invariant -/
+
+/-- `new_identifier` (before the repair) returns `domainaxis1` although an auxiliary coordinate was stored under
+that identifier: the key ends up under two types.  At HEAD (0a6b21e): `domainaxis2`. -/
 theorem C02_old_new_identifier_counterexample :
     let s : St := { cons := [((.axis, ⟨"domainaxis", 0⟩), { size := some 3 }), ((.aux, ⟨"domainaxis", 1⟩), { data := some [3] })],
                     ctype := [(⟨"domainaxis", 0⟩, .axis), (⟨"domainaxis", 1⟩, .aux)],
@@ -233,15 +391,15 @@ theorem C02_old_new_identifier_counterexample :
     let op := Op.setc false .axis { size := some 4 } none none
     Inv s ∧ (stepOld s op).2.isOk = true ∧ ¬ Inv (stepOld s op).1 ∧ Inv (step s op).1 := by decide
 
-/-- `set_construct(c, key=<existing key>)` without axes (unpatched) keeps the recorded axes although the new
-construct has another shape.  Patched: rejected. -/
+/-- `set_construct(c, key=<existing key>)` without axes (before the repair) keeps the recorded axes although the new
+construct has another shape.  At HEAD (05dfd6b): rejected. -/
 theorem C02_old_set_construct_keeps_axes_counterexample :
     let op := Op.setc false .aux { data := some [4] } (some ⟨"auxiliarycoordinate", 0⟩) none
     Inv exField ∧ (stepOld exField op).2.isOk = true ∧ ¬ Inv (stepOld exField op).1 ∧
       (step exField op).2 = .rejected := by decide
 
-/-- `f.domain.del_construct(axis)` (unpatched) deletes a domain axis that the field's data span (here after
-the coordinate and the cell method were removed).  Patched: rejected. -/
+/-- `f.domain.del_construct(axis)` (before the repair) deletes a domain axis that the field's data span (here after
+the coordinate and the cell method were removed).  At HEAD (fba0f94): rejected. -/
 theorem C02_old_domain_view_delete_counterexample :
     let s : St := { cons := [((.axis, ⟨"domainaxis", 0⟩), { size := some 3 })], ctype := [(⟨"domainaxis", 0⟩, .axis)],
                     data := some [3], dataAxes := some [⟨"domainaxis", 0⟩], fda := some [⟨"domainaxis", 0⟩] }
@@ -256,14 +414,15 @@ theorem C02_old_domain_view_delete_ancillary_counterexample :
     let op := Op.delc true ⟨"domainaxis", 0⟩
     Inv s ∧ (stepOld s op).2.isOk = true ∧ ¬ Inv (stepOld s op).1 ∧ (step s op).2 = .rejected := by decide
 
-/-- `Field.set_data_axes` on a field without data (unpatched) accepts an axis that does not exist. -/
+/-- `Field.set_data_axes` on a field without data (before the repair) accepts an axis that does not exist.
+At HEAD (7ccd512): rejected. -/
 theorem C02_old_set_data_axes_counterexample :
     let op := Op.setda [⟨"domainaxis", 9⟩]
     Inv init ∧ (stepOld init op).2.isOk = true ∧ ¬ Inv (stepOld init op).1 ∧ (step init op).2 = .rejected := by decide
 
-/-- `insert_dimension(constructs=True)` (unpatched) inserts the new axis into the dimension coordinates too:
+/-- `insert_dimension(constructs=True)` (before the repair) inserts the new axis into the dimension coordinates too:
 they become 2-d, which `DimensionCoordinate.set_data` itself refuses - the field can then neither be
-copied, subspaced nor squeezed.  Patched: dimension coordinates stay one-dimensional. -/
+copied, subspaced nor squeezed.  At HEAD (7a00732): dimension coordinates stay one-dimensional. -/
 theorem C02_old_insert_dimension_counterexample :
     let s : St := { cons := [((.axis, ⟨"domainaxis", 0⟩), { size := some 3 }),
                              ((.dim, ⟨"dimensioncoordinate", 0⟩), { data := some [3] })],
@@ -313,5 +472,43 @@ theorem C02_replace_unchecked_breaks_inv :
   intro h
   have := (h .aux (by decide)).2.1 [⟨"domainaxis", 0⟩] (by decide)
   revert this; decide
+
+/-- a mutator called on the construct that the field holds (`f.construct(key).set_data(...)`): the container
+is not asked (`MutOK` excludes it) -/
+theorem C02_direct_mutation_breaks_inv :
+    let op := Op.mutate ⟨"auxiliarycoordinate", 0⟩ (.setData [5])
+    Inv exField ∧ (step exField op).2.isOk = true ∧ ¬ Inv (step exField op).1 ∧ ¬ Admissible exField op := by
+  refine ⟨by decide, by decide, by decide, ?_⟩
+  intro h
+  have := ((h .aux { data := some [3], bounds := some [3, 2] } { data := some [5], bounds := some [3, 2] }
+    (by decide) (by decide)) .aux (by decide)).1
+  revert this; decide
+
+-- a mutator that keeps the construct fitting is admissible
+example : Admissible exField (.mutate ⟨"auxiliarycoordinate", 0⟩ .delBounds) := by
+  intro t c c' hc hm
+  have e : (t, c) = (.aux, { data := some [3], bounds := some [3, 2] }) := by
+    have : conOf exField ⟨"auxiliarycoordinate", 0⟩ = some (.aux, { data := some [3], bounds := some [3, 2] }) := by decide
+    rw [this] at hc; exact (Option.some.inj hc).symm
+  cases e
+  have e' : c' = { data := some [3] } := by
+    have : mutCon .aux { data := some [3], bounds := some [3, 2] } .delBounds = some { data := some [3] } := by decide
+    rw [this] at hm; exact (Option.some.inj hm).symm
+  subst e'
+  intro t' ht'
+  have : t' = .aux := by
+    have h0 : exField.ctype.get ⟨"auxiliarycoordinate", 0⟩ = some .aux := by decide
+    rw [h0] at ht'; exact (Option.some.inj ht').symm
+  subst this
+  refine ⟨by decide, ?_, ?_, ?_, ?_⟩
+  · intro A hA
+    have : A = [⟨"domainaxis", 0⟩] := by
+      have h0 : replaceAxes exField .aux ⟨"auxiliarycoordinate", 0⟩ none = some [⟨"domainaxis", 0⟩] := by decide
+      rw [h0] at hA; exact (Option.some.inj hA).symm
+    subst this
+    decide
+  · intro h; cases h
+  · intro h; cases h
+  · intro h; cases h
 
 end Cfdm.Props.C02
